@@ -530,12 +530,32 @@ def rule_confinement(ck, N, run):
     for c in q.calls(disp.node):
         if isinstance(c.func, ast.Attribute) and q.dotted(c.func.value) == "self" and any(isinstance(a, ast.Attribute) and a.attr in maps for a in c.args):
             helpers.add(c.func.attr)
+    # a helper that only loops over the fds it is given and hands each one, with the table it was given, to the real
+    # per-event helper is a *loop helper*: the per-event helper is then the one it calls
+    loop_helpers = {}
+    for hname in sorted(helpers):
+        if not repo.has_func(F, "%s.%s" % (CLS, hname)):
+            continue
+        hfi = repo.func(F, "%s.%s" % (CLS, hname))
+        hp = [p_ for p_ in hfi.params() if p_ != "self"]
+        fors_ = [n_ for n_ in q.walk_body(hfi.node) if isinstance(n_, ast.For) and len(hp) == 2 and q.dotted(n_.iter) == hp[0] and isinstance(n_.target, ast.Name)]
+        if len(fors_) == 1:
+            inner = [c_ for st_ in fors_[0].body for c_ in q.calls(st_) if isinstance(c_.func, ast.Attribute) and q.dotted(c_.func.value) == "self" and len(c_.args) == 2
+                     and q.dotted(c_.args[0]) == fors_[0].target.id and q.dotted(c_.args[1]) == hp[1] and repo.has_func(F, "%s.%s" % (CLS, c_.func.attr))]
+            if len(inner) == 1:
+                loop_helpers[hname] = (hfi, fors_[0], hp, inner[0].func.attr)
+    for hname, (_hfi, _lp, _hp, inner_name) in loop_helpers.items():
+        helpers.discard(hname)
+        helpers.add(inner_name)
     N["helpers"] = helpers
-    for h in sorted(helpers):
+    N["loop_helpers"] = loop_helpers
+    allowed_callers = {disp.qualname} | {v_[0].qualname for v_ in loop_helpers.values()}
+    for h in sorted(helpers | set(loop_helpers)):
         for fi in mod.funcs.values():
             for n in q.walk_body(fi.node):
                 if isinstance(n, ast.Attribute) and n.attr == h:
-                    ck.ob("C40.confinement", fi, n, fi.qualname == disp.qualname, "callback runner %s is reached only from %s (event-loop thread)" % (h, dispatch))
+                    ok_ = fi.qualname in allowed_callers if h in helpers else fi.qualname == disp.qualname
+                    ck.ob("C40.confinement", fi, n, ok_, "callback runner %s is reached only from %s (event-loop thread)" % (h, dispatch))
 
 
 def rule_start_callers(ck, N):
@@ -687,18 +707,27 @@ def rule_dispatch(ck, N, run):
     loops = 0
     for prm, mp, what in ((params[0], N["readers"], "readable"), (params[1], N["writers"], "writable")):
         fors = [n for n in q.walk_body(disp.node) if isinstance(n, ast.For) and q.dotted(n.iter) == prm and isinstance(n.target, ast.Name)]
+        loop_fn, map_txt = disp, "self." + mp
+        if not fors:
+            # the loop lives in a loop helper called as self._h(<ready list>, self.<map>), unconditionally, once
+            via = [(c_, N["loop_helpers"][c_.func.attr]) for st_ in disp.node.body if isinstance(st_, ast.Expr) and isinstance(st_.value, ast.Call) for c_ in [st_.value]
+                   if isinstance(c_.func, ast.Attribute) and q.dotted(c_.func.value) == "self" and c_.func.attr in N.get("loop_helpers", {}) and len(c_.args) == 2 and q.dotted(c_.args[0]) == prm]
+            if len(via) == 1:
+                c_, (hfi_, hlp_, hp_, _inner) = via[0]
+                ck.ob("C40.dispatch", disp, c_, q.dotted(c_.args[1]) == "self." + mp, "the %s fds are handed to the loop helper together with self.%s" % (what, mp), construct="loop-helper %s -> self.%s" % (what, mp))
+                fors, loop_fn, map_txt = [hlp_], ck.use(hfi_), hp_[1]
         if len(fors) != 1:
             raise AnalysisError("expected one `for x in %s` loop in %s, found %d" % (prm, disp.qualname, len(fors)))
         lp = fors[0]
         loops += 1
         hc = [c for st in lp.body for c in q.calls(st) if isinstance(c.func, ast.Attribute) and c.func.attr in N["helpers"]]
-        good = [c for c in hc if len(c.args) == 2 and q.dotted(c.args[0]) == lp.target.id and q.dotted(c.args[1]) == "self." + mp]
+        good = [c for c in hc if len(c.args) == 2 and q.dotted(c.args[0]) == lp.target.id and q.dotted(c.args[1]) == map_txt]
         ck.ob("C40.dispatch", disp, lp, len(good) == 1 and len(hc) == 1 and not lp.orelse and not any(isinstance(x, (ast.Break, ast.Return)) for st in lp.body for x in q.walk_local(st)),
               "every %s fd is dispatched once through self.%s (no early break, right map)" % (what, mp), construct="for %s -> self.%s" % (what, mp))
         # unconditional: between the loop head and the dispatch call there is no condition other than "this fd is still in
         # its own map" (which the helper tests anyway) and no `continue`
         if len(good) == 1:
-            dpm = q.parent_map(disp.node)
+            dpm = q.parent_map(loop_fn.node)
             guards = []
             child = good[0]
             for a in q.ancestors(dpm, good[0]):
@@ -711,7 +740,7 @@ def rule_dispatch(ck, N, run):
                     guards.append((a, True))
                 child = a
             conts = [x for st in lp.body for x in q.walk_local(st) if isinstance(x, ast.Continue)]
-            own_map = ("%s in self.%s" % (lp.target.id, mp), "%s not in self.%s" % (lp.target.id, mp))
+            own_map = ("%s in %s" % (lp.target.id, map_txt), "%s not in %s" % (lp.target.id, map_txt))
             foreign = [g for g, in_body in guards if not (isinstance(g, ast.AST) and not isinstance(g, (ast.While, ast.For)) and q.unparse(g) == own_map[0 if in_body else 1])]
             if conts and not foreign:
                 raise AnalysisError("%s: `continue` inside the %s dispatch loop (shape not recognised)" % (disp.qualname, what))
